@@ -308,6 +308,12 @@ partial def loop (uniTable : Uni) (h : IO.FS.Stream) (gs : List GrammarEntry) : 
     IO.println (match gs.find? (·.gid = gid) with | some ge => PestOpt.run ge.rawpg rest | none => "v=nogrammar")
   | "wf" :: gid :: rest =>                              -- static well-foundedness / theorem fuel (C11): Driver/WF.lean
     IO.println (match gs.find? (·.gid = gid) with | some ge => WF.command ge.ng rest | none => "v=nogrammar")
+  | "wfraw" :: gid :: rest =>                           -- the same on the module of `#[pest_optimizer = false]` (raw AST, counted repetitions kept)
+    IO.println (match gs.find? (·.gid = gid) with
+      | some ge => (match ge.pg, ge.rawpg with
+        | some o, some r => WF.command (genWith (optsConfig "00") o r) rest
+        | _, _ => "v=noast")
+      | none => "v=nogrammar")
   | [gid, rule, entry, form, a, b, hx] =>
     match gs.find? (·.gid = gid) with
     | none => IO.println "v=nogrammar"
